@@ -64,7 +64,7 @@ type Ledger struct {
 
 type LedgerFunc struct {
 	Abstractions []string `json:"abstractions"`
-	// signature (parameter, result and captured-variable types) on the pinned
+	// signature (parameter and result types) on the pinned
 	// tree: function literals are named by ordinal (parent$k), and an edit that
 	// adds or removes a literal makes a contract bind to a different one
 	Sig string `json:"sig,omitempty"`
@@ -75,10 +75,9 @@ func funcSig(fn *ssa.Function) string {
 		return ""
 	}
 	var sb strings.Builder
+	// parameters and results only: the captured variables change as soon as an
+	// edit mentions one more local, which says nothing about which literal it is
 	sb.WriteString(fn.Signature.String())
-	for _, fv := range fn.FreeVars {
-		sb.WriteString(" ^" + fv.Name() + ":" + fv.Type().String())
-	}
 	return sb.String()
 }
 
@@ -603,7 +602,7 @@ func RunCheck(o CheckOpts) int {
 	for _, ob := range obs {
 		// a goal that is concretely false is decided by the executor's own state
 		// (lockset, call counts), not by anything a dropped clause could have contributed
-		concrete := ob.Result == "failed" && ob.failing != nil && ob.failing.Goal == "false"
+		concrete := ob.Result == "failed" && ob.failing != nil && ob.failing.Goal == "false" && concreteKind(ob.Kind)
 		if why, ok := staleContract[ob.Function]; ok && !concrete && (ob.Result == "failed" || ob.Result == "unknown") && ob.Kind != "og-schema" && ob.Kind != "anchor" {
 			ob.Result = "undecided"
 			ob.Reason = "another clause of this function's contract could not be evaluated on this tree, so what this obligation relies on may be missing: " + why
@@ -661,7 +660,7 @@ func RunCheck(o CheckOpts) int {
 				lines = append(lines, fmt.Sprintf("UNDECIDED property=%s obligation=%s reason=%s", o.Property, ob.Name, ob.Reason))
 				continue
 			}
-			if concreteFail := ob.Result == "failed" && ob.failing != nil && ob.failing.Goal == "false"; len(newAbs) > 0 && (ledgerObs != nil) && !concreteFail {
+			if concreteFail := ob.Result == "failed" && ob.failing != nil && ob.failing.Goal == "false" && concreteKind(ob.Kind); len(newAbs) > 0 && (ledgerObs != nil) && !concreteFail {
 				ob.Result = "undecided"
 				ob.Reason = "path crosses abstraction points not present on the pinned tree: " + strings.Join(newAbs, "; ")
 				undecided++
@@ -759,6 +758,14 @@ func contains(xs []string, x string) bool {
 }
 
 var ghostOfClauseRe = regexp.MustCompile(`of clause '([A-Za-z_][A-Za-z0-9_]*) [-+]?= `)
+
+// concreteKind: obligations whose concretely false goal is a fact the executor
+// keeps itself (held locks, counts of calls and events). Frame, lock-announcement
+// and structural obligations turn concretely false for the opposite reason: the
+// code reached something the contract does not describe.
+func concreteKind(kind string) bool {
+	return kind == "assert" || kind == "post" || kind == "pre@call" || kind == "pre@go"
+}
 
 func newAbstractions(ob *ObligationResult, l Ledger) []string {
 	lf, ok := l.Functions[ob.Function]
